@@ -1,6 +1,7 @@
 import CGV.Props.C10
 import CGV.Props.C10Multi
 import CGV.Props.C10Reach
+import CGV.Props.C10Quot
 #print axioms CGV.C10.C10_one_fewer
 #print axioms CGV.C10.C10_others_kept
 #print axioms CGV.C10.C10_removed_gone
@@ -14,3 +15,8 @@ import CGV.Props.C10Reach
 #print axioms CGV.C10.phaseA_wellformed
 #print axioms CGV.C10.C10_resolver_count
 #print axioms CGV.C10.fragsWFb_iff
+#print axioms CGV.C10.rep_cons
+#print axioms CGV.C10.contract_adj
+#print axioms CGV.C10.qinv_step
+#print axioms CGV.C10.C10_quotient_bonds
+#print axioms CGV.C10.C10_rep_alive
